@@ -12,8 +12,10 @@
 -/
 import YtkProofs.Clone
 import YtkModel.Generated.CloneTable
+import YtkProofs.FuncsLemmas
 import YtkModel.Generated.OpOrder
 import YtkProofs.GapPipeline
+import YtkProofs.OpStrings
 
 namespace Ytk.C15
 open Ytk.CloneT Ytk.Clone Ytk.Generated
@@ -200,6 +202,184 @@ theorem nonvacuous_cloneOp :
     (match Pipeline.cloneOp [("i", .leaf ⟨"string", "a"⟩)] (.log "item={{ .i }}") with
       | .log m => m
       | _ => "") = "item=a" := by
+  decide
+
+end Ytk.C15
+
+/-! ## String() of the pipeline types (brief mext7c): what the log listener and error messages print.
+    Model: YtkModel/OpStrings.lean (hand-written) and, for 13 of the methods, the definition regenerated
+    from the Go source (`Generated.Funcs.<T>_String`).  `opSpecOrder` = OpSpec's declared field order, read
+    from the regenerated clone table. -/
+namespace Ytk.C15
+open Ytk.CloneT Ytk.Clone Ytk.Generated Ytk.OpStrings
+
+/-! ### the translated methods equal the hand-written model (all field values) -/
+theorem AbortOp_String_generated_eq_model (m : String) : Funcs.AbortOp_String m = abortS m := AbortOp_String_eq m
+theorem ExtOp_String_generated_eq_model (f : String) : Funcs.ExtOp_String f = extS f := ExtOp_String_eq f
+theorem Html2DomOp_String_generated_eq_model (f t : String) : Funcs.Html2DomOp_String f t = html2domS f t := Html2DomOp_String_eq f t
+theorem ImportOp_String_generated_eq_model (f p m : String) : Funcs.ImportOp_String f p m = importS f p m := ImportOp_String_eq f p m
+/-- never panics (the 5-character cut is guarded by the length test) -/
+theorem LogOp_String_generated_eq_model (m : String) : Funcs.LogOp_String m = .ok (logS m) := LogOp_String_eq m
+theorem LoopOp_String_generated_eq_model : Funcs.LoopOp_String = loopS := LoopOp_String_eq
+theorem PatchOp_String_generated_eq_model (o p : String) : Funcs.PatchOp_String o p = patchS o p := PatchOp_String_eq o p
+theorem SetOp_String_generated_eq_model (p : String) : Funcs.SetOp_String p = setS p := SetOp_String_eq p
+theorem TemplateFileOp_String_generated_eq_model (f o : String) : Funcs.TemplateFileOp_String f o = templateFileS f o := TemplateFileOp_String_eq f o
+theorem TemplateOp_String_generated_eq_model (p : String) : Funcs.TemplateOp_String p = templateS p := TemplateOp_String_eq p
+theorem ExecOp_String_generated_eq_model (p d : String) (a : Option (List String)) :
+    Funcs.ExecOp_String p d a = .ok (execS p d a) := ExecOp_String_eq p d a
+theorem ValOrRef_String_generated_eq_model (r v : String) : Funcs.ValOrRef_String r v = valOrRefS r v := ValOrRef_String_eq r v
+theorem ActionMeta_String_generated_eq_model (n : String) (o : Int) (w : Option String) :
+    Funcs.ActionMeta_String n o w = .ok (actionMetaS n o w) := ActionMeta_String_eq n o w
+
+/-- the order in which OpSpec.String() lists the operations is the declared order the executor uses -/
+theorem opSpec_string_order_is_opOrder : opSpecOrder = opOrder.map (·.1) := by decide
+
+/-! ### clones -/
+
+/-- String() of a template-free clone equals String() of the original — every type of the regenerated
+    table, every well-typed value.  (By `clone_eq`: the clone IS the original; the theorems below do not
+    go through that equality.) -/
+theorem string_clone_eq_of_templateFree (render : String → String) (tpl : String → Bool) (v : CV)
+    (hw : WellTyped cloneTable v) (ht : TemplateFree tpl v) (hl : LenientId render tpl) :
+    stringOf opSpecOrder (cloneV cloneTable render v) = stringOf opSpecOrder v := by
+  rw [clone_eq render tpl v hw ht hl]
+
+/-- ForEachOp, CallOp, ExtOp, LoopOp: String() reads only fields that CloneWith COPIES — the clone prints
+    the same text whatever the renderer does, templates or not, for every field list -/
+theorem string_clone_eq_copied (render : String → String) (fs : List (String × CV)) :
+    opS "ForEachOp" (cloneFields cloneTable render "ForEachOp" fs) = opS "ForEachOp" fs ∧
+    opS "CallOp" (cloneFields cloneTable render "CallOp" fs) = opS "CallOp" fs ∧
+    opS "ExtOp" (cloneFields cloneTable render "ExtOp" fs) = opS "ExtOp" fs ∧
+    opS "LoopOp" (cloneFields cloneTable render "LoopOp" fs) = opS "LoopOp" fs := by
+  have c (ty f : String) (h : actOf cloneTable ty f = .copy := by decide) := h
+  refine ⟨?_, ?_, ?_, by rw [opS_loop, opS_loop]⟩
+  · rw [opS_forEach, opS_forEach, recF_clone_copy (c "ForEachOp" "Glob"), recF_clone_copy (c "ForEachOp" "Query"),
+      strsF_clone_copy (c "ForEachOp" "Item")]
+  · rw [opS_call, opS_call, strF_clone_copy (c "CallOp" "Name"), strsF_clone_copy (c "CallOp" "Args")]
+  · rw [opS_ext, opS_ext, strF_clone_copy (c "ExtOp" "Function")]
+
+/-- the operations whose String() shows `clone:"template"` text fields: the clone prints the RENDERED
+    text there and the copied fields unchanged — closed forms, every field list, every renderer -/
+theorem string_clone_rendered (render : String → String) (fs : List (String × CV)) :
+    opS "AbortOp" (cloneFields cloneTable render "AbortOp" fs) = abortS (strFR render fs "Message") ∧
+    opS "LogOp" (cloneFields cloneTable render "LogOp" fs) = logS (strFR render fs "Message") ∧
+    opS "SetOp" (cloneFields cloneTable render "SetOp" fs) = setS (strFR render fs "Path") ∧
+    opS "TemplateOp" (cloneFields cloneTable render "TemplateOp" fs) = templateS (strFR render fs "Path") ∧
+    opS "ImportOp" (cloneFields cloneTable render "ImportOp" fs)
+      = importS (strFR render fs "File") (strFR render fs "Path") (strF fs "Mode") ∧
+    opS "PatchOp" (cloneFields cloneTable render "PatchOp" fs) = patchS (strF fs "Op") (strFR render fs "Path") ∧
+    opS "Html2DomOp" (cloneFields cloneTable render "Html2DomOp" fs)
+      = html2domS (strFR render fs "From") (strFR render fs "To") ∧
+    opS "TemplateFileOp" (cloneFields cloneTable render "TemplateFileOp" fs)
+      = templateFileS (strFR render fs "File") (strFR render fs "Output") ∧
+    opS "EnvOp" (cloneFields cloneTable render "EnvOp" fs)
+      = envS (strFR render fs "Path") (strPtrF fs "Include") (strPtrF fs "Exclude") := by
+  have c (ty f : String) (h : actOf cloneTable ty f = .copy := by decide) := h
+  have r (ty f : String) (h : actOf cloneTable ty f = .render := by decide) := h
+  refine ⟨?_, ?_, ?_, ?_, ?_, ?_, ?_, ?_, ?_⟩
+  · rw [opS_abort, strF_clone_render (r "AbortOp" "Message")]
+  · rw [opS_log, strF_clone_render (r "LogOp" "Message")]
+  · rw [opS_set, strF_clone_render (r "SetOp" "Path")]
+  · rw [opS_template, strF_clone_render (r "TemplateOp" "Path")]
+  · rw [opS_import, strF_clone_render (r "ImportOp" "File"), strF_clone_render (r "ImportOp" "Path"),
+      strF_clone_copy (c "ImportOp" "Mode")]
+  · rw [opS_patch, strF_clone_render (r "PatchOp" "Path"), strF_clone_copy (c "PatchOp" "Op")]
+  · rw [opS_html2dom, strF_clone_render (r "Html2DomOp" "From"), strF_clone_render (r "Html2DomOp" "To")]
+  · rw [opS_templateFile, strF_clone_render (r "TemplateFileOp" "File"), strF_clone_render (r "TemplateFileOp" "Output")]
+  · rw [opS_env, strF_clone_render (r "EnvOp" "Path"), strPtrF_clone_copy (c "EnvOp" "Include"),
+      strPtrF_clone_copy (c "EnvOp" "Exclude")]
+
+/-- ExecOp: program and directory rendered, and the argument COUNT unchanged by rendering the arguments -/
+theorem string_clone_exec (render : String → String) (fs : List (String × CV)) :
+    opS "ExecOp" (cloneFields cloneTable render "ExecOp" fs)
+      = "Exec[Program=" ++ strFR render fs "Program" ++ ",Dir=" ++ strFR render fs "Dir" ++ ",Args=" ++
+          toString ((strsF fs "Args").getD []).length ++ "]" := by
+  have r (ty f : String) (h : actOf cloneTable ty f = .render := by decide) := h
+  have hl := strsF_clone_render_length (render := render) (r "ExecOp" "Args") fs
+  rw [opS_exec, strF_clone_render (r "ExecOp" "Program"), strF_clone_render (r "ExecOp" "Dir")]
+  unfold execS
+  rw [hl]
+
+/-- String() mentions every field it documents: the text of the field occurs in the output between fixed labels -/
+theorem string_mentions_fields (a b c : String) :
+    (∃ pre post, abortS a = pre ++ a ++ post) ∧
+    (∃ p1 p2 p3 p4, importS a b c = p1 ++ a ++ p2 ++ b ++ p3 ++ c ++ p4) ∧
+    (∃ p1 p2 p3, patchS a b = p1 ++ a ++ p2 ++ b ++ p3) ∧
+    (∃ p1 p2 p3, html2domS a b = p1 ++ a ++ p2 ++ b ++ p3) ∧
+    (∃ p1 p2 p3, templateFileS a b = p1 ++ a ++ p2 ++ b ++ p3) ∧
+    (∃ pre post, setS a = pre ++ a ++ post) ∧ (∃ pre post, templateS a = pre ++ a ++ post) ∧
+    (∃ pre post, extS a = pre ++ a ++ post) :=
+  ⟨⟨_, _, rfl⟩, ⟨_, _, _, _, rfl⟩, ⟨_, _, _, rfl⟩, ⟨_, _, _, rfl⟩, ⟨_, _, _, rfl⟩, ⟨_, _, rfl⟩, ⟨_, _, rfl⟩, ⟨_, _, rfl⟩⟩
+
+/-! ### non-vacuity: the model RUN on concrete values -/
+
+/-- a forEach whose body logs, with a glob, items and a query: the ValOrRef VALUES print as structs, the
+    item slice through String(), and neither the action nor the variable is shown -/
+def exStrForEach : CV :=
+  .rcd "ForEachOp" [("Glob", .rcd "ValOrRef" [("isRef", .data "false"), ("Ref", .str ""), ("Val", .str "*.yaml")]),
+    ("Query", .rcd "ValOrRef" [("isRef", .data "true"), ("Ref", .str "a.b"), ("Val", .str "")]),
+    ("Item", .strs (some ["", "x", "r", ""])), ("Action", exAction "hello"), ("Variable", .strPtr (some "v"))]
+
+theorem nonvacuous_string_forEach :
+    stringOf opSpecOrder exStrForEach = "ForEach[Glob={false  *.yaml},Items=[[Val=x],[Ref=r]],Query={true a.b }]" := by
+  decide
+
+/-- an OpSpec given with its fields in ANOTHER order prints in the declared one; nil operations are skipped -/
+theorem nonvacuous_string_opSpec :
+    stringOf opSpecOrder (.rcd "OpSpec" [("Log", exLog "hello world"), ("Abort", .nil),
+        ("Set", .rcd "SetOp" [("Data", .data "map[]"), ("Path", .str "a.b"), ("Strategy", .strPtr none)])])
+      = "OpSpec[Set=Set[Path=a.b],Log=Log[message(11)=hello]]" := by
+  decide
+
+theorem nonvacuous_string_meta :
+    actionMetaS "n" 3 (some "  .x  ") = "[name=n,order=3,when=.x]" ∧ actionMetaS "" 0 (some " \t") = "[]" ∧
+    stringOf opSpecOrder (.rcd "DefineOp" [("Name", .str "f"),
+        ("Action", .rcd "ActionSpec" [("ActionMeta", .strs (some ["n", "-2"])), ("Operations", .rcd "OpSpec" []), ("Children", .rcd "ChildActions" [])])])
+      = "Define[Name=f, Action=ActionSpec[meta=[name=n,order=-2]]]" := by
+  decide
+
+theorem nonvacuous_string_children :
+    stringOf opSpecOrder (.rcd "ChildActions" [("a", .rcd "ActionSpec" [("ActionMeta", .strs (some ["", "2"]))]),
+        ("b", .rcd "ActionSpec" [("ActionMeta", .strs (some ["", "1"]))])]) = "ChildActions[names=b,a]" ∧
+    stringOf opSpecOrder (.rcd "ChildActions" []) = "ChildActions[]" := by
+  decide
+
+/-- a templated clone prints the rendered text; the template-free one the same text as the original -/
+theorem nonvacuous_string_clone :
+    stringOf opSpecOrder (cloneV cloneTable exRender (exLog "{{ .x }}")) = "Log[message(8)=RENDE]" ∧
+    stringOf opSpecOrder (exLog "{{ .x }}") = "Log[message(8)={{ .x]" ∧
+    stringOf opSpecOrder (cloneV cloneTable exRender (exForEach "hello")) = stringOf opSpecOrder (exForEach "hello") := by
+  decide
+
+theorem nonvacuous_string_dom :
+    coordinatesS [("l1", "a.b"), ("l2", "c[0]")] = "[[layer=l1,path=a.b],[layer=l2,path=c[0]]]\n" ∧
+    coordinatesS [] = "[]\n" ∧
+    modificationS "Add" "a.b" "1" = "Mod[Type=Add,Path=a.b,Value=1]" ∧
+    exportS (some (valOrRefS "" "out.yaml")) "yaml" none = "Export[file=[Val=out.yaml],format=yaml]" := by
+  decide
+
+/-- the repair `],]` → `]]` of Coordinates.String() runs over the whole text: a path that contains `],]` is rewritten -/
+theorem coordinates_string_rewrites_path : coordinatesS [("l", "x],]y")] = "[[layer=l,path=x]]y]]\n" := by decide
+
+end Ytk.C15
+
+/-! ## Translated function (YtkModel/Generated/Funcs.lean, regenerated from the Go source on every run by
+    extract/translate.go): `safeCopyIntSlice`, what the clone-table action `copySlice` stands for.  The
+    clone model carries the field value over unchanged (`cloneFields`: `.copySlice => v`); the translation
+    (`make([]int, len(*in))`, `copy(r, *in)`, `&r`) yields the same VALUE for every input — nil stays nil — and
+    never panics.  (That the copy is a FRESH slice is a pointer-level fact outside the value model.) -/
+namespace Ytk.C15
+open Ytk.Generated
+
+theorem safeCopyIntSlice_generated_eq_model (p : Option (List Int)) : Funcs.safeCopyIntSlice p = .ok p := by
+  cases p with
+  | none => simp [Funcs.safeCopyIntSlice]
+  | some xs =>
+    have h : (0 : Int) ≤ Go.lenL xs := by simp [Go.lenL]
+    simp [Funcs.safeCopyIntSlice, Go.deref, Go.makeL, h, Go.copyL, Go.lenL]
+
+theorem nonvacuous_safeCopyIntSlice :
+    Funcs.safeCopyIntSlice (some [3, 1, 2]) = .ok (some [3, 1, 2]) ∧ Funcs.safeCopyIntSlice none = .ok none := by
   decide
 
 end Ytk.C15
